@@ -59,6 +59,11 @@ def nest(depth):
 def get_doc(case):
     if "deep" in case:
         return nest(case["deep"])
+    if "chain" in case:
+        v = 1
+        for _ in range(case["chain"]):
+            v = {"a": v}
+        return v
     return case["doc"]
 
 
@@ -124,7 +129,21 @@ def lifetime_paths():
     }
 
 
-def agree(pathsmap, q, doc, stage):
+def first_of(fn_finditer, q, doc):
+    """README: find_one(query, value) is `next(iter(finditer(query, value)))`, None on StopIteration - including
+    whatever that expression raises."""
+    try:
+        it = iter(fn_finditer(q, doc))
+        try:
+            n = next(it)
+        except StopIteration:
+            return ("ok", None)
+        return ("ok", sig_nodes([n])[0])
+    except Exception as e:  # noqa: BLE001
+        return ("err", type(e).__name__)
+
+
+def agree(pathsmap, q, doc, stage, lazy=None):
     """All paths of one environment agree with list(compile(q).finditer(doc)) (results or exception class)."""
     outcomes = {}
     for name, (kind, fn) in pathsmap.items():
@@ -134,8 +153,13 @@ def agree(pathsmap, q, doc, stage):
         except Exception as e:  # noqa: BLE001
             outcomes[name] = ("err", type(e).__name__)
     base = outcomes["env.compile.finditer"]
+    want_one = first_of(lazy, q, doc) if lazy is not None else None
     for name, (kind, _) in pathsmap.items():
         o = outcomes[name]
+        if kind == "one" and want_one is not None:
+            if o != want_one:
+                return fail(f"reconfigured:find_one-differs:{name}", f"{stage}: {name}({q!r}) gives {o}, next(iter(finditer())) gives {want_one}", repr(want_one), repr(o))
+            continue
         if base[0] == "err":
             if kind == "one" and base[1] == "JSONPathRecursionError" and (o[0] == "ok" or o == base):
                 continue  # an evaluation error: find_one may return a node that precedes it
@@ -191,7 +215,7 @@ def _reconfigure(case, env, pm, mk, T):
     stored = {}
     for q in case["queries"]:
         if how != "mode":
-            f = agree(pm, q, doc, "before reconfiguration")
+            f = agree(pm, q, doc, "before reconfiguration", lazy=env.finditer)
             if f:
                 return f
         try:
@@ -277,7 +301,7 @@ def _reconfigure(case, env, pm, mk, T):
     elif how == "bounds":
         lo, hi = -1, 1
     for q in case["queries"]:
-        f = agree(pm, q, doc, f"after reconfiguration ({how} via {via})")
+        f = agree(pm, q, doc, f"after reconfiguration ({how} via {via})", lazy=env.finditer)
         if f:
             return f
         res = abnf.classify(q)
@@ -331,7 +355,7 @@ def examine_reapply(case):
             out[f"stored-{tag}.finditer"] = ("list", lambda q_, d, cq=cq: lst(cq.finditer(d)))
             out[f"stored-{tag}.find_one"] = ("one", lambda q_, d, cq=cq: cq.find_one(d))
         return out
-    f = agree(pm(), q, doc, "first use")
+    f = agree(pm(), q, doc, "first use", lazy=env.finditer)
     if f:
         return f
     for step, (key, value) in enumerate(case["mutations"]):
@@ -339,7 +363,7 @@ def examine_reapply(case):
             doc[key] = V.fresh(value)
         except (IndexError, KeyError, TypeError):
             continue
-        f = agree(pm(), q, doc, f"after the caller's in-place change #{step + 1} ({key!r} := {value!r})")
+        f = agree(pm(), q, doc, f"after the caller's in-place change #{step + 1} ({key!r} := {value!r})", lazy=env.finditer)
         if f:
             f["bucket"] = "reapply:" + f["bucket"].split(":", 1)[1]
             return f
@@ -348,6 +372,11 @@ def examine_reapply(case):
 
 def examine(case):
     global _PATHS
+    if case.get("host_stack") and not case.get("_inside"):
+        # queries of hundreds / thousands of segments: whatever happens (a result, or the interpreter's recursion
+        # limit hit inside the evaluator's pipeline) must happen identically through every entry point
+        with lib.host_stack():
+            return examine(dict(case, _inside=True))
     if case.get("kind") == "reconfigure":
         return examine_reconfigure(case)
     if case.get("kind") == "reapply":
@@ -366,8 +395,15 @@ def examine(case):
             outcomes[name] = ("err", type(e).__name__)
     base = outcomes["env.compile.finditer"]
     compiled_ok = lib.compile_(q)[0] == "ok"
+    import jsonpath_rfc9535 as jp
+    want_one = first_of(lambda q_, d_: jp.JSONPathEnvironment().finditer(q_, d_), q, doc)
     for name, (kind, _) in _PATHS.items():
         o = outcomes[name]
+        if kind == "one":
+            if o != want_one:
+                return fail(f"find_one-differs:{name}", f"{name}({q!r}) gives {o}, but find_one is documented as next(iter(finditer())), which gives {want_one}",
+                            repr(want_one), repr(o))
+            continue
         if base[0] == "err":
             if kind == "list" or not compiled_ok:
                 if o != base:
@@ -424,8 +460,8 @@ def run_shard(spec, shard):
         except Exception as e:  # noqa: BLE001
             nt = True
             classes = classes | {"error:" + type(e).__name__}
-        shard.case(key=(q, case.get("deep", case.get("doc"))), nontrivial=nt, classes=classes,
-                   sample={"q": q, "doc": case.get("doc", f"nest({case.get('deep')})")})
+        shard.case(key=(q, case.get("deep", case.get("chain", case.get("doc")))), nontrivial=nt, classes=classes,
+                   sample={"q": q[:120], "doc": case.get("doc", f"nest({case.get('deep')})" if "deep" in case else f"chain({case.get('chain')})")})
         f = examine(case)
         if f:
             shard.fail(f["bucket"], case, f)
@@ -482,6 +518,10 @@ def run_shard(spec, shard):
             f = examine(case)
             if f:
                 shard.fail(f["bucket"], case, f)
+        elif k < 0.47:
+            n = r.choice([200, 450, 1200, 3000])
+            one({"q": "$" + r.choice([".a", "['a']", "[*]"]) * n + r.choice(["", ".a", "[?@]"]), "chain": n + r.choice([0, 0, 2]), "host_stack": True},
+                {"very-long-query"})
         elif k < 0.52:
             one({"q": r.choice(["$..a", "$..*", "$[0]..[?@.a]", "$.a..z[0]", "$..[?@.z]", "$.*..a", "$..nomatch",
                                 "$..[?@.nomatch]", "$..[7]"]),
@@ -492,7 +532,7 @@ def run_shard(spec, shard):
 
 def minimise(case, failure, tier):
     bucket = failure["bucket"]
-    if case.get("kind") in ("reconfigure", "lifetime", "reapply"):
+    if case.get("kind") in ("reconfigure", "lifetime", "reapply") or case.get("host_stack"):
         return case, failure
     cur = dict(case)
 
